@@ -64,7 +64,7 @@ func c18RawKey(kty string, n int) any {
 
 var c18Invalid = map[string]string{
 	"RSA": `{"kty":"RSA","n":"","e":"AQAB"}`,
-	"EC":  `{"kty":"EC","crv":"P-521","x":"","y":""}`,
+	"EC":  `{"kty":"EC","crv":"P-521","x":"AQ","y":"AQ"}`, // (members present: a key-set file holding it still parses; coordinates of the wrong length)
 	"OKP": `{"kty":"OKP","crv":"Ed25519","x":""}`,
 	"oct": `{"kty":"oct","k":""}`,
 }
@@ -92,7 +92,7 @@ func c18Key(k obj, n int) jwk.Key {
 		}
 	} else {
 		key = nil
-		if private && kty != "oct" && n%3 != 0 {
+		if private && kty != "oct" && (n%3 != 0 || kty == "OKP") {
 			// a PRIVATE key whose public members are intact and whose private member is the broken one: `d` empty,
 			// or (EC) shorter than the curve's size
 			good, err := jwk.FromRaw(c18RawKey(kty, n))
